@@ -934,11 +934,14 @@ func (r *Reader) processHeading(h headingXML) parsedParagraph {
 		Level:     1, // Default level
 	}
 
-	// Parse outline level
+	// Parse outline level. The text:outline-level attribute of a text:h IS the
+	// level of the heading (ODF 1.2 part 1, 5.1.2 and 19.844).
+	hasOutlineLevel := false
 	if h.OutlineLevel != "" {
 		// ODF outline levels run from 1 to 10 ("Heading 10" is a predefined style)
 		if level, err := strconv.Atoi(h.OutlineLevel); err == nil && level >= 1 && level <= 10 {
 			parsed.Level = level
+			hasOutlineLevel = true
 		}
 	}
 
@@ -946,8 +949,10 @@ func (r *Reader) processHeading(h headingXML) parsedParagraph {
 	if r.styleResolver != nil {
 		resolved := r.styleResolver.Resolve(h.StyleName)
 		parsed.Alignment = resolved.Alignment
-		// If style has heading level, prefer that
-		if resolved.IsHeading && resolved.HeadingLevel > 0 {
+		// The level of the style (its style:default-outline-level, which only says
+		// what a paragraph gets when the style is applied, or a built-in name
+		// "Heading N") is the fall-back for a heading that states no valid level.
+		if !hasOutlineLevel && resolved.IsHeading && resolved.HeadingLevel > 0 {
 			parsed.Level = resolved.HeadingLevel
 		}
 	}
